@@ -218,7 +218,7 @@ def run(rep):
     nsim, nsimjobs = (200, 1) if quick else (4000, 4)
     jobs = [(meta_cfg(mode="planned", family="metaplanned", k=K, s=s, seed=rep.seed, view=False, alpha="full", dev=AS_IS,
                       invs=["MetaEmitInv", "MetaOnlyNamedQuirks", "ClausesKnown"], **plan), 0, 0) for s in range(K)]
-    jobs += [(meta_cfg(mode="free", maxhops=6, family="sim", view=False, alpha="full", dev=AS_IS, invs=["MetaEmitInv"]),
+    jobs += [(meta_cfg(mode="free", maxhops=6, family="sim", view=False, alpha="full", dev=AS_IS, ckh=7, seed=rep.seed, invs=["MetaEmitInv"]),
               nsim // nsimjobs, rep.seed * 100 + 50 + s) for s in range(nsimjobs)]
     s1 = stage1_jobs(rep)
     with mp.Pool(min(D.JOBS, len(jobs) + len(s1))) as pool:
